@@ -2980,8 +2980,9 @@ class Entity(MutableMapping[str, str]):
         # TODO: if 'mapversion' is passed and self is self.map.spawn, update version there.
 
         # Update the by_class/target dicts with our new value
+        # The indexes are keyed by the case-folded value (and None for no name), as in VMF.add_ent().
         if key_fold == 'classname':
-            _remove_copyset(self.map.by_class, orig_val or '', self)
+            _remove_copyset(self.map.by_class, (orig_val or '').casefold(), self)
             if self in self.map.entities:
                 self.map.by_class[str_val.casefold()].add(self)
             elif self is self.map.spawn:
@@ -2990,9 +2991,9 @@ class Entity(MutableMapping[str, str]):
                     raise ValueError('The worldspawn entity must remain worldspawn!')
                 self.map.by_class['worldspawn'].add(self)
         elif key_fold == 'targetname':
-            _remove_copyset(self.map.by_target, orig_val, self)
-            if self in self.map.entities:
-                self.map.by_target[str_val].add(self)
+            _remove_copyset(self.map.by_target, (orig_val or '').casefold() or None, self)
+            if self in self.map.entities or self is self.map.spawn:
+                self.map.by_target[str_val.casefold() or None].add(self)
         elif key_fold == 'nodeid':
             try:
                 node_id = int(orig_val)  # type: ignore  # Using as a cast
